@@ -19,6 +19,18 @@ from .common import *
 from .equiv import *
 
 
+def _is_fresh_leaf(v):
+    from ..poly import leaf_of
+
+    if v.tag is None:
+        return False
+    for e in v.elems[: min(len(v.elems), 4)]:
+        lf = leaf_of(e) if isinstance(e, A.Poly) else None
+        if lf is None or lf[0] != v.tag:
+            return False
+    return True
+
+
 def symbolise(world, v, seen=None, path="p"):
     """Replace every concrete floating parameter array reachable from a layer by a fresh symbolic array."""
     seen = seen if seen is not None else set()
@@ -26,7 +38,10 @@ def symbolise(world, v, seen=None, path="p"):
         return v
     seen.add(id(v))
     if isinstance(v, A.Arr):
-        if v.elems is not None and v.is_concrete() and v.dtype == "float" and v.size > 0:
+        # every floating array leaf of a model is trainable and independent of every other leaf: constants
+        # (zeros/ones initial values) AND arrays derived from other leaves at construction time (e.g. a
+        # pre-combined filter) become fresh symbols; fresh parameter arrays are kept as they are
+        if v.elems is not None and v.dtype == "float" and v.size > 0 and not _is_fresh_leaf(v):
             return world.fresh_param(v.shape, "S")
         return v
     if isinstance(v, dict):
